@@ -285,6 +285,11 @@ func ReadFromSTL(i io.Reader, opts STLOptions) (o *Subtitles, err error) {
 					return nil, err
 				}
 			} else {
+				// Teletext subtitles are boxed, but WriteToSTL (and other encoders) may omit the start box
+				// spacing attribute: in that case the whole row is the text
+				if !bytes.Contains(text, []byte{0x0b}) {
+					text = append([]byte{0x0b}, text...)
+				}
 				parseTeletextRow(i, ch, func() styler { return newSTLStyler() }, text)
 			}
 		}
